@@ -12,6 +12,7 @@
 EXTENDS YkIscan
 CONSTANTS BUGGY_F18,   \* TRUE: a deleted saved layer root below layer 0 always means "the layer is gone" (the pinned tree: the rest of a layer whose interior root collapsed is skipped)
           BUGGY_F20,   \* TRUE: the new root of a layer is fetched through the border SAVED for the upper layer (the pinned tree: if that border was split and the link moved, the layer is taken for removed)
+          BUGGY_F21,   \* TRUE: a deleted saved layer root that is a BORDER always means "the layer is gone" (the pinned tree; wrong for a root border that was split and then emptied)
           BUGGY_F19    \* TRUE: a deleted neighbour at the end of a border sends an early_abort cursor to retry_from_root instead of returning the warning
 ElemR(key, root, bn, cmp, v, perm, rank) == [key |-> key, root |-> root, bn |-> bn, cmp |-> cmp, v |-> v, perm |-> perm, rank |-> rank]
 Res(st, stack, out, cbs) == [st |-> st, stack |-> stack, out |-> out, cbs |-> cbs]
@@ -62,10 +63,11 @@ RunR(mode, nd, rt, stack, cbs, L, C, ea, fuel) ==
       LET e == TopR(stack) root == e.root rv == nd[root].ver depth == Len(stack) IN
       IF rv.del THEN
          (IF depth = 1 THEN (IF root # rt THEN RunR("RR", nd, rt, SetTopR(stack, [e EXCEPT !.root = rt]), cbs, L, C, ea, fuel - 1) ELSE Res("END", stack, <<>>, cbs))
-          ELSE IF ~BUGGY_F18 /\ nd[root].t = "I" THEN
-               \* only the root of the layer was replaced (interior root collapsed): the new root is fetched through the link of the upper layer
+          ELSE IF ~BUGGY_F18 /\ (nd[root].t = "I" \/ ~BUGGY_F21) THEN
+               \* only the root of the layer was replaced (an interior root collapsed; or a root border was split and later emptied): the new root is
+               \* looked up through the links; a deleted root BORDER that is still linked means the layer is being removed
                LET nr == ResolveTop(nd, rt, stack) IN
-               IF nr # NULL THEN RunR("RR", nd, rt, SetTopR(stack, [e EXCEPT !.root = nr]), cbs, L, C, ea, fuel - 1)
+               IF nr # NULL /\ (nr # root \/ nd[root].t = "I") THEN RunR("RR", nd, rt, SetTopR(stack, [e EXCEPT !.root = nr]), cbs, L, C, ea, fuel - 1)
                ELSE RunR("NL", nd, rt, SubSeq(stack, 1, depth - 1), cbs, L, C, ea, fuel - 1)
           ELSE RunR("NL", nd, rt, SubSeq(stack, 1, depth - 1), cbs, L, C, ea, fuel - 1))
       ELSE IF ~rv.root THEN
